@@ -22,5 +22,5 @@ CHECK = {
         "a malformed or empty version entry may be answered with an error or treated as 'advertises none' (the statement fixes only missing => base version)",
         "pairings whose highest common version is not implemented (2) are evaluated for the negotiated number only",
     ],
-    "required_classes": {"quick": ["exhaustive-pair", "no-common", "repeat-after-error", "cross-version", "utp-findcontent", "no-common-version", "peer:missing"]},
+    "required_classes": {"quick": ["exhaustive-pair", "no-common", "repeat-after-error", "cross-version", "utp-findcontent", "no-common-version", "peer:missing", "all-declined-for-lack-of-a-slot:version=0"]},
 }
